@@ -4,6 +4,7 @@ import (
 	"fmt"
 
 	"github.com/ipld/go-ipld-prime/datamodel"
+	"github.com/ipld/go-ipld-prime/schema"
 )
 
 // Selector is a "compiled" and executable IPLD Selector.
@@ -226,6 +227,11 @@ func (msi mapSegmentIterator) Next() (pathSegment datamodel.PathSegment, value d
 	k, v, err := msi.MapIterator.Next()
 	if err != nil {
 		return datamodel.PathSegment{}, v, err
+	}
+	if tk, ok := k.(schema.TypedNode); ok {
+		// The key of a typed map need not be a string at type level (a struct with a string
+		// representation, for example); its path segment is its representation, as in asPathSegment.
+		k = tk.Representation()
 	}
 	kstr, _ := k.AsString()
 	return datamodel.PathSegmentOfString(kstr), v, err
